@@ -103,6 +103,13 @@ var apiFiles = map[string]string{
 	"/base": "B{% block b %}bb{% endblock %}{% block c %}{% block b2 %}{% endblock %}{% endblock %}",
 	"/lib":  "{% macro lm(a, b=2) export %}<{{ a }}{{ b }}>{% endmacro %}",
 	"/self": `S{% include "/self" %}`,
+	// templates that call back a macro of whoever includes them (family "recursion")
+	"/callback":    `{{ cb(1) }}`,
+	"/callback2":   `{{ a(1) }}`,
+	"/callbackinc": `{% include "/callback" %}`,
+	"/cblib":       `{% macro cb(n) export %}.{% include "/callback" %}{% endmacro %}`,
+	"/cblibssi":    `{% macro cb(n) export %}.{% ssi "/callback" parsed %}{% endmacro %}`,
+	"/cbbase":      `{% block b %}{% endblock %}`,
 	// templates that refer to each other by computed name: the cycle exists at execution time only
 	"/lazyself": `L{% include selfname %}`,
 	"/la":       `A{% include lbname|default:"/lb" %}`,
